@@ -100,6 +100,7 @@ class Ctx:
                                                  ("REFINE4", "Refine4", {"C20"}),
                                                  ("DEADLOCK3", "Deadlock3", {"C05", "C20"}),
                                                  ("ORACLE_RC11", "OracleRC11", {"C02", "C03", "C04", "C16"}),
+                                                 ("VCSOUND", "VCSound", {"C04"}),
                                                  ("REFINE5", "Refine5", {"C17"}))
                   if pid in users]
         table = json.load(open(os.path.join(lvlib.VERIF, "checks", "theorems.json")))
